@@ -314,6 +314,65 @@ fn run_sequence(burst: u32, period_ms: u64, block: bool, seq: &[Op], stall: Opti
     Ok((shape, h))
 }
 
+/// ReturnError mode, burst 1: the permit is taken, then further requests of the same peer arrive at
+/// chosen distances before the next permit (the whole interval for sub-millisecond quotas).
+fn hint_unit(unit: &Value, out: &mut UnitResult) {
+    let period = Duration::from_micros(unit["period_us"].as_u64().unwrap());
+    let rt = tokio::runtime::Builder::new_current_thread().enable_all().build().unwrap();
+    // how long before the next permit the over-quota request is made
+    let mut before: Vec<Duration> = vec![period, period / 2];
+    for us in [900u64, 400, 100, 20] {
+        if Duration::from_micros(us) < period {
+            before.push(Duration::from_micros(us));
+        }
+    }
+    for lead in before {
+        for attempt in 0..3 {
+            out.evaluations += 1;
+            let quota = governor::Quota::with_period(period).unwrap().allow_burst(std::num::NonZeroU32::new(1).unwrap());
+            let admitted = Arc::new(Mutex::new(vec![]));
+            let layer = RateLimitLayer::new(quota, WaitMode::ReturnError);
+            let mut svc = layer.layer(Inner { admitted: admitted.clone() });
+            let ctx = format!("[quota 1 per {period:?}, ReturnError; the permit is used, the next request comes {lead:?} before the next permit]");
+            let r = rt.block_on(async {
+                let t0 = Instant::now();
+                let first = svc.call(Request::new(Bytes::new()).with_header("id", "0").with_extension(near_id(0))).await;
+                if first.is_err() {
+                    return Err(("refused-with-quota-left".to_string(), format!("{ctx}: the first request of a fresh limiter was refused")));
+                }
+                let target = t0 + period - lead;
+                while Instant::now() < target {
+                    std::hint::spin_loop();
+                }
+                let second = svc.call(Request::new(Bytes::new()).with_header("id", "1").with_extension(near_id(0))).await;
+                match second {
+                    Ok(_) => Ok("late"),
+                    Err(e) if e.status() == StatusCode::TooManyRequests => match e.headers().get(WAIT_NANOS_HEADER).and_then(|h| h.parse::<u128>().ok()) {
+                        Some(0) => Err(("zero-wait-hint".to_string(), format!("{ctx}: the refusal carries wait-nanos 0, which is not a positive hint"))),
+                        Some(n) if n > period.as_nanos() + 1_000_000 => Err(("wait-hint-too-long".to_string(), format!("{ctx}: the refusal carries wait-nanos {n}, more than one replenishment interval"))),
+                        Some(_) => Ok("refused"),
+                        None => Err(("no-wait-hint".to_string(), format!("{ctx}: the refusal carries no parsable wait-nanos header: {:?}", e.headers()))),
+                    },
+                    Err(e) => Err(("wrong-refusal".to_string(), format!("{ctx}: unexpected failure {:?}", e.status()))),
+                }
+            });
+            match r {
+                Ok(c) => {
+                    out.class(format!("hint {c}"));
+                    if c == "refused" {
+                        break;
+                    }
+                    let _ = attempt;
+                }
+                Err((k, m)) => {
+                    out.violation(k, m, json!({"unit": unit}));
+                    break;
+                }
+            }
+        }
+    }
+}
+
 impl Check for C19 {
     fn meta(&self, _tier: Tier) -> CheckMeta {
         CheckMeta {
@@ -356,6 +415,11 @@ impl Check for C19 {
                 u.push(json!({"kind":"deadline","burst":burst,"period":PERIOD_MS,"block":block}));
             }
         }
+        // refusals close to the next permit, and quotas that replenish faster than a millisecond:
+        // the hint stays positive (and never exceeds one replenishment interval)
+        for period_us in [300u64, 500, 900, 1_500, 40_000] {
+            u.push(json!({"kind":"hint","period_us":period_us}));
+        }
         for (burst, peers, per_peer) in arr {
             for block in [false, true] {
                 for first in 0..peers {
@@ -367,6 +431,10 @@ impl Check for C19 {
     }
 
     fn run_unit(&self, _tier: Tier, unit: &Value, out: &mut UnitResult) {
+        if unit["kind"] == "hint" {
+            hint_unit(unit, out);
+            return;
+        }
         let burst = unit["burst"].as_u64().unwrap() as u32;
         let block = unit["block"].as_bool().unwrap();
         let period = unit["period"].as_u64().unwrap();
@@ -505,6 +573,11 @@ impl Check for C19 {
     }
 
     fn replay(&self, replay: &Value) -> String {
+        if replay["unit"]["kind"] == "hint" {
+            let mut out = UnitResult::default();
+            hint_unit(&replay["unit"], &mut out);
+            return format!("unit {}\nviolations: {:?}\nclasses: {:?}", replay["unit"], out.violations.iter().map(|v| (&v.key, &v.message)).collect::<Vec<_>>(), out.classes);
+        }
         let seq: Vec<Op> = replay["sequence"].as_array().unwrap().iter().map(|i| OPS[i.as_u64().unwrap() as usize]).collect();
         let stall = replay.get("stall").and_then(|s| s.as_array()).map(|s| (s[0].as_u64().unwrap() as usize, s[1].as_u64().unwrap() as usize));
         let r = run_sequence(replay["unit"]["burst"].as_u64().unwrap() as u32, replay["unit"]["period"].as_u64().unwrap_or(PERIOD_MS), replay["unit"]["block"].as_bool().unwrap(), &seq, stall);
